@@ -110,3 +110,56 @@ PROPS = {
         "assumptions": ["operand values fit their declared width (the Rust type system enforces it)", "dest slice of write_to_byte_slice is exactly ceil(len/8) bytes"],
     },
 }
+
+COMP_RULE = ("comp stream: public constructors (Residual, QuantizedParameters, Constant, Verbatim, FixedLpc, Lpc, FrameHeader, unknown metadata) on grids of "
+             "boundary and inconsistent arguments (one defect at a time on a consistent base: lengths that disagree, orders 7/16/40/64/257/2^32+1, parameters 15/40/255, "
+             "warm-up beyond the partition/block, block size 0 and 32768, precision 0/16, coefficients one beyond the precision, wrap-around widths and rates, "
+             "frame/sample numbers at every UTF-8 length boundary up to 2^36), random consistent residuals with partition orders 0..5, parameters 0..14 and quotient sums on "
+             "both sides of 2^32; every accepted component: verify, count_bits, write through MemSink<u8>, MemSink<u64> and a recording user sink, parse back; for every k a sink "
+             "failing on its k-th operation; plus whole small streams with every subframe type, with and without precomputed frame bitstreams. The Lean model decides accept/reject "
+             "(Model/Verify.lean), predicts count, bits and the exact operation list (Model/Ops.lean); distinct = (constructor, argument class)")
+KERNEL_RULE = ("kernel stream: integer kernels called through the cfg(flacenc_verif) re-exports with arguments the estimator would never produce: Rice parameter search on "
+               "9 residual classes (tiny, 16-bit, 2^27, full 2^31 range, loud/silent partitions, per-partition scales, alternating extremes, heavy tails) x sizes 64..8192 x warm-up 0..32 x "
+               "max parameter {0,1,2,3,7,8,13,14} with a brute-force optimum in the harness for n<=1200; sign folding; fixed-predictor residuals on full-scale 8..25-bit signals; compute_error with "
+               "extreme coefficients/shift 0..15/order 1..24; deinterleave for 1..8 channels over stale buffers; LE conversions incl. negative extremes; EXHAUSTIVE header code spaces "
+               "(block size 1..65535, sample size 0..255, sample rate 0..1048575), UTF-8-like coding at every bit-length boundary, finest partition order; distinct = (kernel, class)")
+
+PROPS.update({
+    "C08": {
+        "theorem_modules": ["FlacVerif.Theorems.C08", "FlacVerif.Theorems.C12"],
+        "streams": {"quick": [("comp", ["--cases", 120]), ("kernel", ["--cases", 30]), ("stream", ["--cases", 120, "--max-samples", 4000])],
+                    "thorough": [("comp", ["--cases", 3000]), ("kernel", ["--cases", 200]), ("stream", ["--cases", 3000, "--max-samples", 40000])],
+                    "search": [("comp", ["--cases", 1500]), ("stream", ["--cases", 800, "--max-samples", 9000])]},
+        "profiles": {"quick": ["release", "dev"], "thorough": ["release", "dev"]},
+        "diff_prefix": ["c08."], "oracle_fields": ["o_c08"],
+        "rule": COMP_RULE + " || " + STREAM_RULE + "; here the model's count/bits of the tree decoded from the real bytes are compared with count_bits of the real stream",
+        "trusted_base": ["hand-written component model Model/Component.lean, Model/Rice.lean (bits, count) and Model/Ops.lean, tied to bitrepr.rs by the comp stream (count, length through both sinks, bytes, operation list) and by re-serialising every decoded real stream byte-exactly"],
+        "assumptions": ["components satisfy the well-formedness the constructors/verify establish (C18); frame and sample numbers < 2^36"],
+    },
+    "C12": {
+        "streams": {"quick": [("comp", ["--cases", 120])], "thorough": [("comp", ["--cases", 4000])], "search": [("comp", ["--cases", 1500])]},
+        "profiles": {"quick": ["release", "dev"], "thorough": ["release", "dev"]},
+        "diff_prefix": ["c12."], "oracle_fields": ["o_c12"], "rule": COMP_RULE,
+        "trusted_base": ["Model/Ops.lean: the operation list each write issues (tied to bitrepr.rs by comparing it with the list a recording sink really receives, for every component and whole streams)",
+                         "that every sink error is returned with `?` (no unwrap) is not visible to the model: it is established by the fail-at-every-k enumeration on the real code"],
+        "assumptions": ["the user sink implements the four required trait methods (provided methods expand as Model/Sink.lean `Op.expand`, proved bit-equivalent in C11_defaults)"],
+    },
+    "C13": {
+        "streams": {"quick": [("kernel", ["--cases", 400]), ("stream", ["--cases", 150, "--max-samples", 6000])],
+                    "thorough": [("kernel", ["--cases", 6000]), ("stream", ["--cases", 3000, "--max-samples", 40000]), ("stream", ["--cases", 2000, "--max-samples", 40000, "--focus", "loud"])],
+                    "search": [("kernel", ["--cases", 3000])]},
+        "diff_prefix": ["c13."], "oracle_fields": ["o_c13"],
+        "rule": KERNEL_RULE + " || " + STREAM_RULE + "; the partitioning recovered from the real bytes by the Lean decoder is compared on COST with the model's search on the same residual",
+        "trusted_base": ["Model/Rice.lean mirrors rice.rs (u32 arithmetic, saturation) — tied by the kernel stream on (order, parameters, reported bits) and by stream records on cost"],
+        "assumptions": ["residual values inside (-2^31, 2^31), block length < 2^16", "optimality is claimed whenever the optimum is below the saturation value 2^28-1 (for an emitted residual this always holds: C13_emitted); at exactly 2^28-1 with a single partition the code can return a worse choice (C13_saturation_edge_counterexample, replayed on the real code as corpus case corpus-c13-edge) - such a residual is never emitted because it loses against verbatim"],
+    },
+    "C14": {
+        "streams": {"quick": [("kernel", ["--cases", 40]), ("stream", ["--cases", 250, "--max-samples", 5000])],
+                    "thorough": [("kernel", ["--cases", 400]), ("stream", ["--cases", 5000, "--max-samples", 40000])],
+                    "search": [("stream", ["--cases", 1200, "--max-samples", 9000])]},
+        "diff_prefix": ["c14."], "oracle_fields": ["o_c14"], "class_of": stream_class,
+        "rule": KERNEL_RULE + " || " + STREAM_RULE + "; every stream record is encoded a second time with the other delivery mode (integers <-> packed bytes) and the bytes compared",
+        "trusted_base": ["Model/Source.lean mirrors arrayutils.rs deinterleave / le_bytes_to_i32s / i32s_to_le_bytes and source.rs FrameBuf fills — tied by the kernel stream (all 8 channel specialisations over stale buffers, all 4 byte widths)"],
+        "assumptions": ["samples inside the declared width (otherwise the byte path wraps and the integer path does not; the encoder rejects such input: C17)"],
+    },
+})
